@@ -393,6 +393,8 @@ fn prop_ci(case: &Value) -> Value {
     let big = |v: &Value| (v["a"].as_u64().unwrap() as usize) << v["p"].as_u64().unwrap();
     let n = if case.get("nbig").is_some() { big(&case["nbig"]) } else { case["n"].as_u64().unwrap() as usize };
     let k = if case.get("kbig").is_some() { big(&case["kbig"]) } else { case["k"].as_u64().unwrap() as usize };
+    // "kminus": all but that many trials succeeded
+    let k = if let Some(m) = case.get("kminus").and_then(|x| x.as_u64()) { n - m as usize } else { k };
     let mut ev = case.clone();
     let conf = match catch_unwind(|| mk_conf(&case["conf"])) {
         Ok(c) => c,
